@@ -2,7 +2,7 @@
 """Regenerates the seeded-changes table in DESIGN.md from seeded/*/meta.json."""
 import json, glob, os, re
 rows = []
-for d in sorted(glob.glob('/verif/seeded/*/')):
+for d in sorted(glob.glob('/verif/seeded/C*/')):
     m = json.load(open(d + 'meta.json')); sid = os.path.basename(d.rstrip('/'))
     c = m.get('confirmed_by_me', {})
     ok = 'yes' if (str(c.get('demo_without_change_rc')) == '0' and str(c.get('demo_with_change_rc')) not in ('0', 'None') and str(c.get('full_suite_with_change_rc')) == '0') else 'PARTIAL'
